@@ -15,18 +15,55 @@ def prop(pid, tracemod, rule):
     return deco
 
 
-def judge(ctx, pid, vectors, what="", exec_prop=None, **kw):
-    """vectors -> real code -> trace -> TLC verdicts, folded into ctx."""
+def judge(ctx, pid, vectors, what="", exec_prop=None, reverse=False, **kw):
+    """vectors -> real code -> trace -> TLC verdicts, folded into ctx.
+    reverse=True: the same vectors are also executed in reverse order in a fresh process - whatever the library
+    remembers from earlier calls (caches keyed too coarsely, pooled state) then meets the inputs in another order."""
     trace = ctx.fresh("trace") + ".ndjson"
     hexec(ctx, exec_prop or pid, vectors, trace)
     mod = PROPS[pid]["trace"]
     verdicts = validate(ctx, mod + ".tla", mod + ".cfg", trace, what=what, **kw)
     absorb(ctx, trace, verdicts)
+    ctx.trace_src[os.path.basename(trace)] = (vectors, exec_prop or pid)
     os.remove(trace)
+    if reverse:
+        rev = ctx.fresh("reversed") + ".ndjson"
+        with open(vectors) as f:
+            lines = f.readlines()
+        with open(rev, "w") as f:
+            f.writelines(reversed(lines))
+        trace = ctx.fresh("trace") + ".ndjson"
+        hexec(ctx, exec_prop or pid, rev, trace)
+        verdicts = validate(ctx, mod + ".tla", mod + ".cfg", trace, what=what + " (reverse order, fresh process)", **kw)
+        absorb(ctx, trace, verdicts)
+        ctx.trace_src[os.path.basename(trace)] = (rev, exec_prop or pid)
+        os.remove(trace)
+
+
+def _judge_one_line(ctx, pid, trace, line_no):
+    """Validate the single trace line `line_no` (plus the domain line it may refer to)."""
+    with open(trace) as f:
+        lines = f.readlines()
+    if line_no > len(lines):
+        return False
+    rec = json.loads(lines[line_no - 1])
+    one = ctx.fresh("oneline") + ".ndjson"
+    with open(one, "w") as f:
+        if "domline" in rec:
+            f.write(lines[rec["domline"] - 1])
+            rec["domline"] = 1
+            f.write(json.dumps(rec) + "\n")
+        else:
+            f.write(lines[line_no - 1])
+    mod = PROPS[pid]["trace"]
+    verdicts = validate(ctx, mod + ".tla", mod + ".cfg", one, workers=2, heap_gb=2, what="replay")
+    return any(not v[0] for v in verdicts.values())
 
 
 def confirm(ctx, viol):
-    """Re-execute one violating vector on the real code and let TLC judge it again."""
+    """Re-execute one violating case on the real code and let TLC judge it again: first the single vector in a
+    fresh process; if that does not reproduce it, the whole vector sequence it was part of (a violation may need
+    the calls made before it - a cache, a pooled object, a reused receiver), judging the same trace line."""
     if viol.get("vector") is None:
         return True
     vec = ctx.fresh("replayvec") + ".ndjson"
@@ -35,17 +72,33 @@ def confirm(ctx, viol):
     hexec(ctx, ctx.prop, vec, trace)
     mod = PROPS[ctx.prop]["trace"]
     verdicts = validate(ctx, mod + ".tla", mod + ".cfg", trace, workers=2, heap_gb=2, what="replay")
-    return any(not v[0] for v in verdicts.values())
+    if any(not v[0] for v in verdicts.values()):
+        return True
+    src = ctx.trace_src.get(viol.get("trace"))
+    if not src or not os.path.exists(src[0]):
+        return False
+    trace = ctx.fresh("replayhistory") + ".ndjson"
+    hexec(ctx, src[1], src[0], trace)
+    if _judge_one_line(ctx, ctx.prop, trace, viol["line"]):
+        viol["history"] = (src[0], viol["line"])
+        return True
+    return False
 
 
 def replay(pid, path):
     with open(path) as f:
         body = json.load(f)
-    ctx = vf.Ctx(pid, "quick", 0)
+    ctx = vf.Ctx(pid, "quick", 0, clean_replays=False)
     ctx.run = ctx.run + ".replay"
     os.makedirs(ctx.run, exist_ok=True)
-    viol = {"vector": body["vector"]}
-    bad = confirm(ctx, viol)
+    if body.get("history"):
+        # the recorded case needs the calls made before it: run the recorded sequence, judge the recorded line
+        hist = os.path.join(os.path.dirname(path), body["history"]["file"])
+        trace = ctx.fresh("replayhistory") + ".ndjson"
+        hexec(ctx, pid, hist, trace)
+        bad = _judge_one_line(ctx, pid, trace, body["history"]["line"])
+    else:
+        bad = confirm(ctx, {"vector": body["vector"]})
     import shutil
     shutil.rmtree(ctx.run, ignore_errors=True)
     if bad:
@@ -88,8 +141,9 @@ def c02(ctx):
     mc(ctx, "DebVersionLaws.tla", "DebVersionLaws_triples_%s.cfg" % t, what="reflexive, transitive, congruent")
     mc(ctx, "DebVersionLaws.tla", "DebVersionLaws_pairs_%s.cfg" % t, what="PolicyCmp = Key order (total preorder)")
     g1 = gen(ctx, "VersionGen.tla", "VersionGen_domain_%s.cfg" % t, ctx.path("dom.ndjson"), what="part-string domain")
+    g2 = gen(ctx, "VersionGen.tla", "VersionGen_cmp_%s.cfg" % t, ctx.path("cmp.ndjson"), what="structured pairs (hyphens/colons inside upstream parts)")
     r = hgen(ctx, "C02", ctx.path("rand.ndjson"))
-    judge(ctx, "C02", vf.cat(ctx.path("vec.ndjson"), g1, r), what="laws on logged signs, sort results")
+    judge(ctx, "C02", vf.cat(ctx.path("vec.ndjson"), g1, g2, r), what="laws on logged signs, sort results", reverse=True)
     ctx.assumptions += ["total preorder on the unbounded domain follows from the Key embedding only where the "
                         "embedding was checked (bounded domain) plus the per-triple checks on real signs"]
 
@@ -250,7 +304,7 @@ def c06(ctx):
     mc(ctx, "DepLaws.tla", "DepLaws_quick.cfg", what="Match symmetric where pinned; arch names bijective")
     g1 = gen(ctx, "DepGen.tla", "DepGen_c06_%s.cfg" % t, ctx.path("c06.ndjson"), what="pairs, lists, selections, constraints")
     r = hgen(ctx, "C06", ctx.path("rand.ndjson"))
-    judge(ctx, "C06", vf.cat(ctx.path("vec.ndjson"), g1, r), what="Is / Matches / GetPossibilities / SatisfiedBy")
+    judge(ctx, "C06", vf.cat(ctx.path("vec.ndjson"), g1, r), what="Is / Matches / GetPossibilities / SatisfiedBy", reverse=True)
     ctx.exhaustive = True
 
 
@@ -347,7 +401,7 @@ def c19(ctx):
       "fields; the probe types' reflected descriptors are checked against the specification's table.")
 def c09(ctx):
     g1 = gen(ctx, "StructGen.tla", "StructGen.cfg", ctx.path("st.ndjson"), what="probe values, documents")
-    judge(ctx, "C09", g1, what="Marshal/Unmarshal vs descriptor algebra")
+    judge(ctx, "C09", g1, what="Marshal/Unmarshal vs descriptor algebra", reverse=True)
     ctx.exhaustive = True
     ctx.assumptions += ["'optional zero fields are omitted' is read as 'fields whose text is empty': int 0 / bool false are written "
                         "as 0 / no by design", "pointer fields are not among the supported kinds"]
@@ -361,7 +415,7 @@ def c09(ctx):
       "are flattened (the harness's key set is checked against the table) and every field and derived accessor is judged.")
 def c10(ctx):
     g1 = gen(ctx, "DebDocsGen.tla", "DebDocsGen.cfg", ctx.path("docs.ndjson"), what="document models per kind")
-    judge(ctx, "C10", g1, what="typed parsers vs document model")
+    judge(ctx, "C10", g1, what="typed parsers vs document model", reverse=True)
     ctx.exhaustive = True
 
 
